@@ -50,7 +50,7 @@ let () =
     | ["U"] -> close_block C.TUnreachable
     | ["E"] ->
         let f = C.mk_func (List.rev !blocks) (List.rev !args) !tokens in
-        let fuel = nat_of_int (60 * List.length !blocks + 200) in
+        let fuel = nat_of_int (400 * List.length !blocks + 2000) in
         (match C.check_func f fuel with
          | C.Accept -> print_endline (!name ^ " A")
          | C.Reject (l, i, c, v) ->
